@@ -241,3 +241,53 @@ def body_construct(ka: int, ia: int, sa: str, kb: int, ib: int, sb: str, qk: int
     if not (eqv(snapshot(p), sp) and eqv(snapshot(q), sq)):
         return 7
     return 0
+
+
+# ------------------------------------------------------------------ after a FAILED convert() / constructor call
+
+def after_failed_call(first, tk, ka, ia, sa, he, entry):
+    if first == 0:
+        _quiet(pane.convert, [1, 'x'], t.List[int])                 # fails on a non-scalar argument
+    elif first == 1:
+        _quiet(lambda: P1(a=['x']))                                        # a checked constructor that fails
+    elif first == 2:
+        _quiet(pane.convert, {'a': 1}, P1)                            # succeeds
+    else:
+        _quiet(pane.convert, {'t': 'x', 'a': 'bad'}, TYPES['tag_int'])   # fails inside a tagged union
+    v = shared.b_tag_int(tk, True, ka, ia, sa, he)
+    if entry == 1:
+        v = {'kind': 'a', 'inner': v}
+    elif entry == 2:
+        v = [v, {'t': 'x', 'a': 'bad'}]
+    s0 = snapshot(v)
+    T = TYPES['tag_int'] if entry == 0 else (T_NEST if entry == 1 else t.List[TYPES['tag_int']])
+    ok, x = _quiet(pane.from_data, v, T)
+    if not eqv(snapshot(v), s0):
+        return 4
+    ok2, y = _quiet(pane.convert, v, T)
+    if not eqv(snapshot(v), s0):
+        return 5
+    return 0 if ok else -1
+
+
+_AF = '''
+@obligation(pre="0 <= tk <= 3 and (ka == 2 or ka == 4) and 0 <= entry <= 2", witnesses=(0, -1), timeout=200)
+def body_after_failed_call_{first}(tk: int, ka: int, ia: int, sa: str, he: bool, entry: int) -> int:
+    """{doc}"""
+    if len(sa) > 1:
+        return -99
+    return after_failed_call({first}, tk, ka, ia, sa, he, entry)
+'''
+for (_f, _what) in ((0, 'a convert() that failed on a non-scalar argument'), (1, 'a checked constructor call that failed'),
+                    (2, 'a convert() that succeeded'), (3, 'a convert() that failed inside a tagged union')):
+    exec(_AF.format(first=_f, doc=_what + " just before does not make the next conversion touch its input (plain dict into tagged unions, nested, in a list)"))
+body_after_failed_call = after_failed_call
+
+for _f in range(4):
+    for _e in range(3):
+        for _tk in range(4):
+            try:
+                body_after_failed_call(_f, _tk, 2, 1, '', False, _e)
+                body_after_failed_call(_f, _tk, 4, 1, 'q', True, _e)
+            except Exception:
+                pass
